@@ -93,6 +93,7 @@ ConformPairLine ==
     IsPair(R) => \A k \in DOMAIN R.res :
         /\ R.res[k].valid = ValidB(M, R.res[k].ballast)
         /\ R.res[k].cross = Cross(M, D)
+        /\ R.res[k].cross_gs = Cross(M, D)      \* ValidateManifestWithGroupSpecs, the client-side twin
         /\ R.res[k].resrej = ResRejected(M, D)
         /\ R.res[k].accepted = (ValidB(M, R.res[k].ballast) /\ Cross(M, D) = "ok")
 ConformGateLine ==
